@@ -44,6 +44,37 @@ OTHER_POOL = {"time": ["s", "hr"], "current": ["A"], "angle": ["rad"], "power": 
 OFFSET_TARGETS = ["degC", "degF"]
 
 
+BASE_REPS = {
+    "mass": ["kg", "g", "Msun", "lb", "mg", "Mearth"],
+    "length": ["m", "cm", "km", "pc", "ft", "angstrom", "AU"],
+    "time": ["s", "ms", "hr", "yr", "Myr", "us"],
+    "temperature": ["K", "mK", "R", "kK"],
+}
+
+
+def compound_unit(rng, d):
+    """a compound spelling of the dimension `d` (sympy) over seeded representatives of the base
+    dimensions, e.g. energy -> 'g*km**2/hr**2'; None when `d` involves other base dimensions"""
+    import unyt.dimensions as ud
+    import sympy
+
+    base = {"mass": ud.mass, "length": ud.length, "time": ud.time, "temperature": ud.temperature}
+    pd = sympy.sympify(d).as_powers_dict()
+    parts = []
+    for sym, p in pd.items():
+        if sym == 1:
+            continue
+        hit = [n for n, b in base.items() if b == sym]
+        if not hit:
+            return None
+        p = sympy.Rational(p)
+        parts.append(f"{rng.choice(BASE_REPS[hit[0]])}**({int(p.p)}/{int(p.q)})")
+    if not parts:
+        return None  # dimensionless: ratio spellings such as cm/angstrom are probed by reducible_inputs()
+    rng.shuffle(parts)
+    return "*".join(parts)
+
+
 def dim_names():
     import unyt.dimensions as ud
 
@@ -229,8 +260,17 @@ class Sweep:
             self.chk.count("model-skip:unit-outside-wire-vocabulary")
             return
         kws = ";".join(f"{k}={core.f2b(v)}" for k, v in kw.items())
-        self.mlines.append("\t".join(["c09.convert", mode, eq if eq is not None else "-"] + fa + fb_ + [str(core.f2b(xv)), kws]))
+        self.mlines.append("\t".join(["c09.convert", mode, eq if eq is not None else "-"] + fa + fb_ + [str(core.f2b(xv)), str(core.f2b(self.self_coeff(ua))), kws]))
         self.mexpect.append((tag, expect, tol))
+
+    def self_coeff(self, u):
+        """the coefficient unyt's unit algebra gives the unit's own expression:
+        `_multiply_units(u, dimensionless)[0]` (1 unless two atoms share a dimension)"""
+        from unyt import Unit
+        from unyt.array import _multiply_units
+
+        U = Unit(u)
+        return float(_multiply_units(U, Unit(registry=U.registry))[0])
 
     # ---- covered requests ---------------------------------------------------------------
     def covered(self, n_units, with_quantity=True):
@@ -250,8 +290,15 @@ class Sweep:
                 pairs = []
                 # systematic first pair (SI spellings) + seeded others
                 pairs.append((pa[0], pb[0]))
-                for _ in range(n_units - 1):
-                    pairs.append((rng.choice(pa), rng.choice(pb)))
+                for i in range(n_units - 1):
+                    ua, ub = rng.choice(pa), rng.choice(pb)
+                    if i % 2 == 1:  # compound spellings on either side
+                        ca, cb = compound_unit(rng, da), compound_unit(rng, db)
+                        if ca is not None and rng.random() < 0.7:
+                            ua = ca
+                        if cb is not None and rng.random() < 0.7:
+                            ub = cb
+                    pairs.append((ua, ub))
                 for (ua, ub) in pairs:
                     kw = {}
                     if accepted and rng.random() < 0.7:
@@ -296,27 +343,34 @@ class Sweep:
             return True
 
         res = {}
-        try:
-            res["to_equivalent"] = x.to_equivalent(ub, eq, **kw)
-            pure("to_equivalent")
-            res["to"] = x.to(ub, eq, **kw)
-            pure("to")
-            res["in_units"] = x.in_units(ub, equivalence=eq, **kw)
-            pure("in_units")
-            tv = x.to_value(ub, eq, **kw)
-            pure("to_value")
-            res["to_value"] = unyt_array(tv, ub)
+        entry_src = {"to_equivalent": f"x.to_equivalent({ub!r}, {eq!r}{kws})", "to": f"x.to({ub!r}, {eq!r}{kws})",
+                     "in_units": f"x.in_units({ub!r}, equivalence={eq!r}{kws})", "to_value": f"x.to_value({ub!r}, {eq!r}{kws})",
+                     "convert_to_equivalent": f"y = x.copy(); y.convert_to_equivalent({ub!r}, {eq!r}{kws})",
+                     "convert_to_units": f"y = x.copy(); y.convert_to_units({ub!r}, equivalence={eq!r}{kws})"}
+
+        def inplace_call(method):
             y = x.copy()
-            ret = y.convert_to_equivalent(ub, eq, **kw)
-            res["convert_to_equivalent"] = y
-            z = x.copy()
-            z.convert_to_units(ub, equivalence=eq, **kw)
-            res["convert_to_units"] = z
-        except Exception as e:
-            chk.fail(f"raise|{keyp}|{core.exc_name(e)}", f"a covered request raised {core.exc_name(e)}",
-                     {"python": snippet(head + f"x.to_equivalent({ub!r}, {eq!r}{kws}); x.to({ub!r}, {eq!r}{kws}); x.in_units({ub!r}, equivalence={eq!r}{kws}); x.to_value({ub!r}, {eq!r}{kws})\n"
-                                               f"y = x.copy(); y.convert_to_equivalent({ub!r}, {eq!r}{kws}); z = x.copy(); z.convert_to_units({ub!r}, equivalence={eq!r}{kws})\n"),
-                      "equivalence": eq, "units": [ua, ub], "error": repr(e)})
+            if method == "convert_to_equivalent":
+                y.convert_to_equivalent(ub, eq, **kw)
+            else:
+                y.convert_to_units(ub, equivalence=eq, **kw)
+            return y
+
+        entries = [("to_equivalent", lambda: x.to_equivalent(ub, eq, **kw)), ("to", lambda: x.to(ub, eq, **kw)),
+                   ("in_units", lambda: x.in_units(ub, equivalence=eq, **kw)),
+                   ("to_value", lambda: unyt_array(x.to_value(ub, eq, **kw), ub)),
+                   ("convert_to_equivalent", lambda: inplace_call("convert_to_equivalent")),
+                   ("convert_to_units", lambda: inplace_call("convert_to_units"))]
+        for en, fn in entries:
+            try:
+                res[en] = fn()
+            except Exception as e:
+                chk.fail(f"raise|{keyp}|{en}|{core.exc_name(e)}", f"a covered request raised {core.exc_name(e)} ({en})",
+                         {"python": snippet(head + entry_src[en] + "\n"), "equivalence": eq, "units": [ua, ub], "error": repr(e)[:300]})
+                continue
+            if not en.startswith("convert_"):
+                pure(en)
+        if "to_equivalent" not in res:
             return
         r = res["to_equivalent"]
         if r is None or not hasattr(r, "units"):
@@ -424,7 +478,8 @@ class Sweep:
         # --- model lines ---------------------------------------------------------------------------
         for i, v in enumerate(vals):
             self.add_model("copy", eq, ua, ub, v, kw, float(r.d[i]), RT(cond), f"{keyp} copy {ua}->{ub}")
-        self.add_model("inplace", eq, ua, ub, vals[0], kw, float(res["convert_to_equivalent"].d[0]), RT(cond), f"{keyp} in-place {ua}->{ub}")
+        if "convert_to_equivalent" in res:
+            self.add_model("inplace", eq, ua, ub, vals[0], kw, float(res["convert_to_equivalent"].d[0]), RT(cond), f"{keyp} in-place {ua}->{ub}")
 
     # ---- requests that must raise, and the other wrapper routes --------------------------------
     def uncovered(self, per_equiv):
@@ -480,10 +535,57 @@ class Sweep:
                     try:
                         fa, fb_ = self.wire(ua), self.wire(ub)
                         for mode in ("copy", "inplace"):
-                            self.mlines.append("\t".join(["c09.convert", mode, eq] + fa + fb_ + [str(core.f2b(vals[0])), ""]))
+                            self.mlines.append("\t".join(["c09.convert", mode, eq] + fa + fb_ + [str(core.f2b(vals[0])), str(core.f2b(self.self_coeff(ua))), ""]))
                             self.mexpect.append((f"uncovered {eq} {ua}->{ub} {mode}", "err:InvalidUnitEquivalence", 0.0))
                     except ValueError:
                         pass
+
+    def reducible_inputs(self):
+        """input units whose own expression simplifies to a coefficient (two atoms of one
+        dimension, e.g. K*cm/angstrom = 1e8 K): the in-place form must still equal the copying form"""
+        from unyt import unyt_array
+
+        chk, rng = self.chk, self.rng
+        for eq, cls in self.reg.items():
+            for da, db in itertools.permutations(list(cls._dims), 2):
+                a, b = self.dn(da), self.dn(db)
+                pa, pb = self.pool(a, da), self.pool(b, db)
+                if not pa or not pb:
+                    continue
+                base = pa[0]
+                ua = (f"({base})*cm/angstrom" if base not in ("", "dimensionless") else "cm/angstrom")
+                ub = pb[0]
+                if eq == "lorentz":
+                    si = 1.5 if a == "dimensionless" else 0.5 * self.C["clight"]
+                else:
+                    si = rng.uniform(1.0, 10.0) * 10 ** rng.randint(-3, 3)
+                # 3 K*cm/angstrom -> J through thermal is the witness of C09_inplace_counterexample
+                v = 3.0 if (eq, a, b) == ("thermal", "temperature", "energy") else si / 1e8
+                x = unyt_array(np.array([v]), ua)
+                try:
+                    r = x.to_equivalent(ub, eq)
+                except Exception as e:
+                    chk.fail(f"raise|{eq}|{a}->{b}|to_equivalent|{core.exc_name(e)}|reducible-input-unit", f"copying request with a reducible input unit raised {core.exc_name(e)}",
+                             {"python": snippet(f"x = unyt_array(np.array([{v!r}]), {ua!r})\nx.to_equivalent({ub!r}, {eq!r})\n"), "units": [ua, ub]})
+                    continue
+                y = x.copy()
+                try:
+                    y.convert_to_equivalent(ub, eq)
+                    outcome = "value" if relerr(y.d, r.d) <= SAME_RTOL * 1e4 and y.units == r.units else "wrong-value"
+                    got = float(y.d[0])
+                except Exception as e:
+                    outcome = core.exc_name(e)
+                    got = "err:" + ("RuntimeError" if isinstance(e, RecursionError) else core.exc_name(e))
+                chk.count("reducible-input:" + outcome)
+                chk.case(("reducible", eq, a, b))
+                if outcome != "value":
+                    chk.fail(f"inplace|reducible-input-unit|{outcome}",
+                             f"{eq} {ua}->{ub}: copying form returns {float(r.d[0])!r}, in-place form: {outcome}",
+                             {"python": snippet(f"x = unyt_array(np.array([{v!r}]), {ua!r})\nr = x.to_equivalent({ub!r}, {eq!r})\ny = x.copy(); y.convert_to_equivalent({ub!r}, {eq!r})\n"
+                                                 f"assert relerr(y.d, r.d) <= {SAME_RTOL * 1e4!r} and y.units == r.units, (y, r)\n"),
+                              "equivalence": eq, "units": [ua, ub]})
+                self.add_model("copy", eq, ua, ub, v, {}, float(r.d[0]), RT(1.0) * 64, f"reducible {eq} copy {ua}->{ub}")
+                self.add_model("inplace", eq, ua, ub, v, {}, got, RT(1.0) * 64, f"reducible {eq} in-place {ua}->{ub}")
 
     def offset_inputs(self):
         """a reading on an offset scale (degC, degF) is either refused or converted as the absolute
@@ -596,7 +698,7 @@ class Sweep:
                 except ValueError:
                     continue
                 kws = ";".join(f"{k}={core.f2b(val)}" for k, val in kw.items())
-                self.mlines.append("\t".join(["c09.convert", mode, eq if eq is not None else "-"] + fa + fb_ + [str(core.f2b(v)), kws]))
+                self.mlines.append("\t".join(["c09.convert", mode, eq if eq is not None else "-"] + fa + fb_ + [str(core.f2b(v)), str(core.f2b(self.self_coeff(ua))), kws]))
                 self.mexpect.append((f"wrapper {eq} {ua}->{ub} {mode} {kw}", exp, 2.0 ** -40 * 64))
 
 
@@ -687,6 +789,7 @@ def run(tier, seed):
     sw.uncovered(per_equiv=24 if tier == "quick" else None)
     sw.wrapper_routes()
     sw.offset_inputs()
+    sw.reducible_inputs()
 
     # ---- correspondence: the model's numbers and outcomes ------------------------------------
     if model is not None and sw.mlines:
@@ -701,7 +804,7 @@ def run(tier, seed):
                 got = "err:" + rep[1] if rep[0] == "err" else "value"
                 want = exp
                 # the model has one name for exceptions outside unyt's own vocabulary
-                if want not in ("err:InvalidUnitEquivalence", "err:KeyError", "err:TypeError", "err:UnitConversionError", "err:InvalidUnitOperation"):
+                if want not in ("err:InvalidUnitEquivalence", "err:KeyError", "err:TypeError", "err:UnitConversionError", "err:InvalidUnitOperation", "err:RuntimeError"):
                     want = "err:Other"
                 if got != want:
                     chk.disagree("c09.convert", f"{tag}: model {rep}, implementation {exp}")
